@@ -6,7 +6,7 @@ from pcv import core, capio, gen
 P = "PcVerif.Props.C01."
 THEOREMS = [P + t for t in ["srt_multipliers_pinned", "srt_stamp_denotes", "srt_stamp_no_fraction", "vtt_constants_pinned",
                             "vtt_stamp_hms", "vtt_stamp_ms", "dfxp_constants_pinned", "dfxp_clock_fraction", "dfxp_clock_plain",
-                            "dfxp_clock_frames", "sami_tail_pinned", "sami_backfill", "srt_block_wf", "srt_doc_cues", "vtt_block_wf", "vtt_doc_cues", "microdvd_read_constants_pinned", "microdvd_doc_cues", "microdvd_doc_cues_rate", "microdvd_frame_25"]]
+                            "dfxp_clock_frames", "sami_tail_pinned", "sami_backfill", "srt_block_wf", "srt_doc_cues", "vtt_block_wf", "vtt_doc_cues", "microdvd_read_constants_pinned", "microdvd_doc_cues", "microdvd_doc_cues_rate", "microdvd_frame_25", "dfxp_offset_whole", "dfxp_offset_decimal", "dfxp_offset_value", "dfxp_begin_end", "dfxp_begin_dur"]]
 
 
 def make(tier, seed):
